@@ -180,6 +180,18 @@ def FT.descendantForBytes (ft : FT) (k s e : Nat) (namedOnly : Bool) : Option Na
         else go fuel c (if !namedOnly || ft.named c then c else last)
   some (go ft.size k k)
 
+/-- Does the path the smallest-descendant search follows (bytes) visit a zero-width node? -/
+def FT.descendantPathHasEmpty (ft : FT) (k s e : Nat) : Bool :=
+  let rec go (fuel cur : Nat) : Bool :=
+    match fuel with
+    | 0 => false
+    | fuel + 1 =>
+      match (ft.kidsOf cur).find? (fun c =>
+          ft.eb c ≥ e && (if ft.sb c == ft.eb c then ft.eb c ≥ s else ft.eb c > s)) with
+      | none => false
+      | some c => if s < ft.sb c then false else (ft.sb c == ft.eb c) || go fuel c
+  go ft.size k
+
 def FT.descendantForPoints (ft : FT) (k : Nat) (s e : TSPoint) (namedOnly : Bool) : Option Nat :=
   if point_gt s e then none else
   let rec go (fuel cur last : Nat) : Nat :=
